@@ -70,6 +70,9 @@ AtomHolds(a, s, P) ==
       [] a.k = "data"   -> HasTokIn(EvOf(s, a.conv), "c", a.tok) \/ HasTokIn(EvOf(s, a.conv), "s", a.tok)
       [] a.k = "ftime"  -> InRange(s.ft, a.lo, a.hi)
       [] a.k = "ltime"  -> InRange(s.lt, a.lo, a.hi)
+      \* the duration of the stream (ltime:@ftime@+90m:  /  ltime::@ftime@+90m, thresholds between whole hours):
+      \* "ge" n: lasts at least n hours, "le" n: lasts less than n hours
+      [] a.k = "dur"    -> IF a.tok = "ge" THEN s.lt - s.ft >= a.n ELSE s.lt - s.ft < a.n
       \* arithmetic on fields of the same stream:  field OP n + sum(s[i] * LinVars[i])   (id:7-@id@:  means id >= 7 - id)
       [] a.k = "lin"    -> LET rhs == a.n + LinSum(a.s, s, 1)
                                v == NumVal(a.name, s)
